@@ -37,14 +37,13 @@ TECHNIQUE = ('Coq proof over a hand-written executable model of the collectors, 
 LEVEL_TEXT = ('Kernel-checked theorems for all ASTs and renamers: each collector collects exactly the Attribute nodes of '
               'the documented shapes (rec./newRec./oldRec./choice./user.A/user.A.X), once each, in visit order; converting '
               'the renamed AST equals renaming the converted tree; the colIds list is renamed element-wise and is otherwise '
-              'textually unchanged; a formula whose parse fails is returned unchanged -- refuted for the code as it is when '
-              'the text does not even parse as a module (SyntaxError escapes process_renames and aborts the whole rename: '
-              'known finding), proved for the repaired function.')
+              'textually unchanged; text outside the patched name tokens is kept character for character; a formula whose '
+              'parse fails in any way (not a module, not an expression, rejected by the converter) is returned unchanged '
+              '(the model follows the code after fix commit 8212ac8; the old witness is replayed first in every check).')
 LEVEL_NOTE = ('Kernel strength: parser, asttokens and the $-replacer are oracles; the step from renamed text to renamed AST '
               '(parser compositionality) is checked on the implementation, not proved; useractions glue is end-to-end only.')
 
 IMPORTS = ['Grist.Model.Predicate', 'Grist.Model.PredicateRename']
-MODEL_REPAIRED = os.environ.get('VERIF_C17_REPAIRED') == '1'
 warnings.filterwarnings('ignore', category=SyntaxWarning)
 
 Z, S = predgen.Z, predgen.S
@@ -372,7 +371,7 @@ def correspond(ctx):
       sample={'formula': formula[:160], 'collector': kind, 'renamer': term[:200], 'result': result[-1][:160]}
       if changed and len(ctx.samples) < 6 else None)
   ctx.log('process_renames / perform_* cases: %d; colIds cases: %d; lookup cases: %d' % (len(coq), len(colcases), len(lookcases)))
-  check = 'c17_case_ok %s' % core.boollit(MODEL_REPAIRED)
+  check = 'c17_case_ok'
   for k in ctx.run_cases('renames', IMPORTS, check, coq, shard=110)[:6]:
     ctx.broken('correspondence:Model.PredicateRename.process_renames differs from the running code',
                'formula %r via %s collector %s renamer %s: implementation %r' % meta[k])
@@ -403,7 +402,7 @@ E2E_NEW = ['Z', 'A2', 'name', 'Family Name', 'B', 'x y', 'AA', 'rec', 'Ünï']
 def gen_spec(rng, g):
   def formula(allow_bad):
     k = rng.random()
-    if allow_bad and k < 0.05:
+    if allow_bad and k < 0.12:
       return rng.choice(E2E_UNPARSABLE)
     if k < 0.5:
       return rng.choice(E2E_FORMULAS)
@@ -445,8 +444,23 @@ def gen_spec(rng, g):
   return spec
 
 
+# witness of the finding repaired by fix commit 8212ac8 (known_findings.json, kind fixed): always first
+REGRESSION_SPECS = [
+  {'colids': {'T': '*', 'C': '*'}, 'acl_rules': [{'table': 'T', 'formula': 'rec.A ==', 'raw': True}], 'dcs': [],
+   'triggers': [], 'actions': [['RenameColumn', 'T', 'AA', 'X']]},
+  {'colids': {'T': 'A,AA', 'C': '*'}, 'acl_rules': [{'table': 'T', 'formula': 'rec.AA == 1', 'raw': False}],
+   'dcs': [{'col': 'B', 'formula': 'choice.A ==', 'raw': True}],
+   'triggers': [{'mode': 'text', 'formula': '$AA $B', 'raw': True}], 'actions': [['RenameColumn', 'T', 'AA', 'X']]},
+]
+
+
 def search(ctx):
   from harness import pred_e2e
+  for spec in REGRESSION_SPECS:
+    bad, changes, outcomes = pred_e2e.run_spec(spec)
+    ctx.count(json.dumps(spec, sort_keys=True), nontrivial=True, kind='e2e:regression:' + '+'.join(outcomes))
+    for kind, what in bad[:3]:
+      ctx.violation(kind, what, {'spec': spec, 'kind': kind})
   g = predgen.Gen(ctx.rng, cols=['A', 'AA', 'B', 'Name', 'N', 'R', 'Cust'], unicode_ok=True)
   for _ in range(ctx.n(120, 600)):
     spec = gen_spec(ctx.rng, g)
